@@ -4,7 +4,14 @@ set -u
 P=$1; shift
 cd /repo && git diff --quiet || { echo "/repo dirty"; exit 2; }
 git apply $P || { echo "patch does not apply"; exit 2; }
-trap 'git -C /repo checkout -- .; git -C /verif checkout -- evidence 2>/dev/null' EXIT
+# always undo the patch, restore the evidence files and rebuild the lanes from the clean tree (a
+# binary built from the patched tree must never be used for anything else)
+cleanup() {
+  git -C /repo checkout -- .
+  git -C /verif checkout -- evidence 2>/dev/null
+  (cd /verif && python3 -c 'import sys; sys.path.insert(0, "tools"); from lanes import build_lane; [build_lane(l) for l in ("rel", "dbg")]')
+}
+trap cleanup EXIT
 cd /verif
 for id in "$@"; do
   ./check $id --tier ${TIER:-quick} > /tmp/try_$id.log 2>&1; rc=$?
